@@ -126,7 +126,7 @@ ShareIs(net, st) ==
   /\ (net.provGateway =>
         /\ net.route
         /\ (st.traffic >= 0 /\ st.match = "" => net.rtCanaryW = st.traffic /\ net.rtStableW = 100 - st.traffic)
-        /\ (st.match # "" => net.rtGenRules > 0))
+        /\ (st.match # "" => (net.rtGenRules > 0 /\ net.rtMatch = st.match)))
 
 RoutedFor(s, k) ==
   /\ ShareIs(s.net, s.plan[k])
